@@ -66,6 +66,30 @@ def check(sh, doc, sseed, suite):
                     sh.violation('on', f'on:option-lost-on-{route}-route', f'PyDBML({route}, allow_properties=True) differs from the string route', case)
         finally:
             os.unlink(pth)
+    # ---------------- the option passed by position (documented order: source, allow_properties, ...)
+    if hash(text) % 3 == 0:
+        from pydbml import PyDBML
+        for label, call in (('PyDBML(text, True)', lambda: PyDBML(text, True)), ('PyDBML.parse(text, True)', lambda: PyDBML.parse(text, True)),
+                            ('PyDBML().parse(text, True)', lambda: PyDBML().parse(text, True))):
+            try:
+                dbp = call()
+                okp = err_on is None and dbp.allow_properties is True and walk.content(dbp) == walk.content(on)
+            except Exception as e:  # noqa
+                okp = err_on is not None and type(e) is type(err_on)
+            sh.count('obs.option_by_position')
+            if not okp:
+                sh.violation('on', f'on:option-by-position-differs:{label}', f'{label} differs from allow_properties=True by keyword', case)
+        from pv.common import parser_class
+        cls_ = parser_class()
+        if cls_ is not None:
+            try:
+                dbp = cls_(text, True).parse()
+                okp = err_on is None and dbp.allow_properties is True and walk.content(dbp) == walk.content(on)
+            except Exception as e:  # noqa
+                okp = err_on is not None and type(e) is type(err_on)
+            sh.count('obs.option_by_position')
+            if not okp:
+                sh.violation('on', 'on:option-by-position-differs:parser-class', 'the parser class called with (text, True) differs from allow_properties=True by keyword', case)
     # ---------------- option on
     if err_on is not None:
         cls, where = monitors.classify_exc(err_on)
@@ -204,7 +228,8 @@ def prop_product(rng):
             for ordinary in range(3):
                 doc = am.Doc(allow_properties=True)
                 t = am.Table(rng.choice(['public', nm('s')]), nm('t'))
-                kwv = ['true', 'false', 'null', 'NULL', 'True', '42', '4.5', '0', '', ' ', 'pk', 'not null', "note: 'x'"]
+                kwv = ['true', 'false', 'null', 'NULL', 'True', '42', '4.5', '0', '', ' ', 'pk', 'not null', "note: 'x'",
+                       'x' * 101, 'a fairly long value, ' * 6, 'y' * 300, 'w ' * 60]
                 t.props = [(nm('pk'), tx.line('pv') if rng.random() > 0.25 else rng.choice(kwv)) for _ in range(nt)]
                 t.note = tx.note('tn') if rng.random() < 0.5 else None
                 c = am.Column(nm('c'), am.ColType('plain', 'int'))
